@@ -494,6 +494,27 @@ Definition check_up_attempted (x : gctx) (calls : list call) : bool :=
        | _, _ => true
        end.
 
+(* C03, recovery clause: a scan that sees fewer untainted nodes than the minimum (unlocked, node count within bounds)
+   "restores capacity, untainting first and requesting the rest": the exact-remainder and acted-on rules in that situation *)
+Definition below_min_recovery (x : gctx) : bool :=
+  negb (in_cooldown x) && (x_min x <=? zlen (x_nodes x)) && (zlen (x_nodes x) <=? x_max x)
+  && (zlen (c_untainted (x_cls x)) <? x_min x).
+Definition check_C03_recover (x : gctx) (calls : list call) : bool :=
+  if below_min_recovery x then check_C07_exact x calls && check_up_attempted x calls else true.
+
+(* C04, second sentence: "a scale-up that would exceed the bound is clamped to land exactly on it, and when no headroom remains
+   no request is made": the exact-remainder and acted-on rules whenever the decided need does not fit under the bound *)
+Definition clamp_binds (x : gctx) (calls : list call) : bool :=
+  match need_of x, x_asg x with
+  | Some N, Some a =>
+    let before := calls_before_increase calls in
+    let rest := N - counted_untainted x before in
+    (0 <? rest) && (Z.min (x_max x) (a_max a) <? a_desired a - ok_terminations before + rest)
+  | _, _ => false
+  end.
+Definition check_C04_exact (x : gctx) (calls : list call) : bool :=
+  if clamp_binds x calls then check_C07_exact x calls && check_up_attempted x calls else true.
+
 (* ---------- well-formed views: node names are unique (a Kubernetes invariant the nodupb-style claims rest on) ---------- *)
 Definition wf_ctx (x : gctx) : bool := nodupb (map n_name (x_nodes x)).
 
